@@ -25,6 +25,7 @@ def run(ck):
     ck.mc('AluIndSame', 'MC_AluIndSame.cfg', timeout=1200, coverage=False)
     ck.apalache('AluInd', 'AluInd.cfg', 'Exact', timeout=1500)
     isa_common.family_check(ck, FAMILY, ck.pick(4, 8), 'c03', rounds=ck.pick(1, 4))
+    isa_common.sweep_all(ck, 'c03', seedoff=300)
     ck.assumptions += isa_common.ISA_ASSUMPTIONS + [
         'exactness of add/sub/compare, flags and saturation is proved at full width (W = 16) by Apalache/SMT on AluInd.tla, whose '
         'operators TLC shows equal to TeakAlu.tla for all values at W = 4 (same text, generic in W); the remaining ALU theorems '
